@@ -314,6 +314,70 @@ def loadPytket (c : Circ) (useArrays : Bool) (metadata : Option (List String))
     | .error e => .error (.compile e)
     | .ok w => .ok (sig, w)
 
+/-! ## Sessions: several loads in one process
+
+A pytket `Circuit` is a mutable object: it can be loaded, extended, and loaded again; objects can
+be deleted and their identity (`id()`) reused.  What one load sees is a `Snapshot`: the state of
+the circuit object at that moment, together with what `Tk2Circuit` produces for that state
+(`Converted`, opaque to the model: metadata, output port types and the content of the converted
+function).  `runSession useCache` threads an explicit conversion cache keyed by object identity
+through the events; the code has no such cache: it is `runSession false`. -/
+
+/-- what `Tk2Circuit(circ)` yields for the circuit in its current state -/
+structure Converted where
+  metadata : Option (List String)
+  innerOuts : List PortTy
+  /-- content of the converted circuit function (e.g. its gate multiset); opaque to the model -/
+  body : List String
+  deriving DecidableEq, Repr
+
+structure Snapshot where
+  circ : Circ
+  useArrays : Bool
+  /-- the conversion of the circuit as it is at this moment -/
+  conv : Converted
+  deriving Repr
+
+inductive Event where
+  /-- `load_pytket` / `@guppy.pytket` of the object with identity `obj`, then lowering -/
+  | load (obj : Nat) (s : Snapshot)
+  /-- anything the compiler does not see: creating, mutating, deleting circuit objects -/
+  | other
+  deriving Repr
+
+/-- signature, wiring and the content of the inserted circuit function -/
+abbrev Loaded := Except LoadErr (Sig × Wiring × List String)
+
+/-- one load, given the conversion that is inserted -/
+def compileWith (s : Snapshot) (cv : Converted) : Loaded :=
+  match loadPytket s.circ s.useArrays cv.metadata cv.innerOuts with
+  | .error e => .error e
+  | .ok (sig, w) => .ok (sig, w, cv.body)
+
+/-- one load of the circuit as it is now -/
+def compileSnapshot (s : Snapshot) : Loaded := compileWith s s.conv
+
+abbrev ConvCache := List (Nat × Converted)
+
+/-- the conversion used for a load, and the cache afterwards -/
+def convertVia (useCache : Bool) (cache : ConvCache) (obj : Nat) (s : Snapshot) :
+    Converted × ConvCache :=
+  if useCache then
+    match cache.lookup obj with
+    | some cv => (cv, cache)
+    | none => (s.conv, (obj, s.conv) :: cache)
+  else (s.conv, cache)
+
+def runSession (useCache : Bool) : ConvCache → List Event → List Loaded
+  | _, [] => []
+  | cache, .other :: evs => runSession useCache cache evs
+  | cache, .load obj s :: evs =>
+    let r := convertVia useCache cache obj s
+    compileWith s r.1 :: runSession useCache r.2 evs
+
+/-- the code: every load converts the circuit again -/
+def session (evs : List Event) : List Loaded := runSession false [] evs
+
 /-! ## pytket's view of a circuit (assumption about pytket, checked on every run)
 
 `qubits` / `bits` are listed in increasing `UnitID` order (name, then index vector), and
